@@ -1,4 +1,5 @@
 import PysamlModel.Props.C07
+#print axioms C07.C07_signature
 #print axioms C07.C07_signature_enveloped
 #print axioms C07.C07_signature_detached
 #print axioms C07.C07_signature_cert_only
